@@ -1,6 +1,7 @@
 import RosuModel.Model.MapOrAttrs
 import RosuModel.Gen.Dispatch
 import RosuModel.Gen.Setters
+import RosuModel.Gen.TryFrom
 
 /-!
 # C04 — reusing computed attributes gives the same performance as using the map
@@ -56,6 +57,16 @@ settings supplied again" is expressible through either route. -/
 theorem difficulty_setter_in_every_mode :
     ∀ mode ∈ ["Osu", "Taiko", "Catch", "Mania"],
       ((modeSetters.lookup mode).bind (·.lookup "difficulty")) = some Effect.setDifficulty := by decide
+
+/-- Mode-specific builders obtained by converting an osu! builder (`try_mode`, `mode_or_ignore`,
+`TryFrom`) keep the `Difficulty` and start from the converted map; which score fields they carry
+over is C07's `tryfrom_consistent_with_setters`. -/
+theorem converted_builders_keep_difficulty :
+    ∀ row ∈ tryFromOsu, row.2.1.lookup "difficulty" = some "difficulty" ∧
+      row.2.2.lookup "difficulty" = some "difficulty" ∧
+      row.2.2.lookup "map_or_attrs" = some "MapOrAttrs::Map(map)" ∧
+      (row.2.1.lookup "hitresult_priority" = some "hitresult_priority" → row.2.2.lookup "hitresult_priority" = some "hitresult_priority") := by
+  decide
 
 /-- Non-vacuity on concrete functions. -/
 example :
